@@ -1915,6 +1915,23 @@ class BuiltinFn:
         self.name = name
 
 
+def _b_sum(interp, args, kwargs, node):
+    """sum over a concrete sequence of numbers / truth values (symbolic items become an integer sum term)."""
+    items = interp._concrete_iter(args[0], node)
+    total = args[1] if len(args) > 1 else 0
+    for x in items:
+        if isinstance(x, (bool, int, float)) and isinstance(total, (int, float)):
+            total = total + x
+        elif is_z3(x) or is_z3(total):
+            lx = lift(x)
+            if lx.sort() == z3.BoolSort():
+                lx = z3.If(lx, 1, 0)
+            total = lift(total) + lx
+        else:
+            raise Unsupported("sum of unsupported items", node)
+    return total
+
+
 def _b_len(interp, args, kwargs, node):
     (x,) = args
     if isinstance(x, (str, list, tuple, dict, set, frozenset, range)):
@@ -2244,7 +2261,7 @@ BUILTINS = {
         len=_b_len, range=_b_range, isinstance=_b_isinstance, str=_b_str, bool=_b_bool, list=_b_list, tuple=_b_tuple,
         set=_b_set, dict=_b_dict, enumerate=_b_enumerate, zip=_b_zip, all=_b_all, any=_b_any, sorted=_b_sorted,
         getattr=_b_getattr, hasattr=_b_hasattr, setattr=_b_setattr, delattr=_b_delattr, int=_b_int, type=_b_type,
-        min=_b_min, max=_b_max, next=_b_next, vars=_b_vars, reversed=_b_reversed,
+        min=_b_min, max=_b_max, next=_b_next, vars=_b_vars, reversed=_b_reversed, sum=_b_sum,
     ).items()
 }
 
